@@ -6,18 +6,31 @@ Require Import Cherab.Model.C05_BeamModels Cherab.Model.C05_Check.
 From Coq Require Import Lqa Qround.
 Open Scope Q_scope.
 
-Lemma aff3_proper c : proper3 (aff3 c).
-Proof. unfold proper3, aff3. intros e e' n n' t t' -> -> ->. reflexivity. Qed.
+Lemma Qle_bool_right a e e' : e == e' -> Qle_bool a e = Qle_bool a e'.
+Proof.
+  intros H. apply Bool.eq_iff_eq_true. rewrite !Qle_bool_iff, H. reflexivity.
+Qed.
 
-Lemma aff3_value c e n t : aff3 c e n t == nth 0 c 0 + nth 1 c 0 * e + nth 2 c 0 * n + nth 3 c 0 * t.
-Proof. unfold aff3. apply Qred_correct. Qed.
+Lemma aff3_proper c : proper3 (aff3 c).
+Proof.
+  unfold proper3, aff3. intros e e' n n' t t' He Hn Ht. rewrite (Qle_bool_right _ e e' He).
+  destruct (Qle_bool (nth 4 c 0) e'); [|reflexivity]. rewrite !Qred_correct, He, Hn, Ht. reflexivity.
+Qed.
+
+Lemma aff3_value c e n t :
+  aff3 c e n t == if Qle_bool (nth 4 c 0) e then nth 0 c 0 + nth 1 c 0 * e + nth 2 c 0 * n + nth 3 c 0 * t else 0.
+Proof. unfold aff3. destruct (Qle_bool (nth 4 c 0) e); [apply Qred_correct | reflexivity]. Qed.
 
 Lemma aff5_proper c : proper5 (aff5 c).
-Proof. unfold proper5, aff5. intros e e' t t' n n' z z' b b' -> -> -> -> ->. reflexivity. Qed.
+Proof.
+  unfold proper5, aff5. intros e e' t t' n n' z z' b b' He Ht Hn Hz Hb. rewrite (Qle_bool_right _ e e' He).
+  destruct (Qle_bool (nth 6 c 0) e'); [|reflexivity]. rewrite !Qred_correct, He, Ht, Hn, Hz, Hb. reflexivity.
+Qed.
 
 Lemma aff5_value c e t n z b :
-  aff5 c e t n z b == nth 0 c 0 + nth 1 c 0 * e + nth 2 c 0 * t + nth 3 c 0 * n + nth 4 c 0 * z + nth 5 c 0 * b.
-Proof. unfold aff5. apply Qred_correct. Qed.
+  aff5 c e t n z b == if Qle_bool (nth 6 c 0) e
+                      then nth 0 c 0 + nth 1 c 0 * e + nth 2 c 0 * t + nth 3 c 0 * n + nth 4 c 0 * z + nth 5 c 0 * b else 0.
+Proof. unfold aff5. destruct (Qle_bool (nth 6 c 0) e); [apply Qred_correct | reflexivity]. Qed.
 
 Lemma sqrt_approx_spec x :
   0 < x ->
